@@ -17,7 +17,7 @@ def rchunkSizes (n c : Nat) : List Nat :=
   (if n % c = 0 then [] else [n % c]) ++ List.replicate (n / c) c
 
 def decLayout : Layout := fun bs order po =>
-  if bs / 2 ^ po = 0 then .error (.panic "read_block: rchunks_mut chunk size must be non-zero")
+  if bs / 2 ^ po = 0 then .error decZeroPartitionLen
   else if (rchunkSizes (bs - order) (bs / 2 ^ po)).length ≠ 2 ^ po then .error (.err "InvalidPartitionOrder")
   else .ok (rchunkSizes (bs - order) (bs / 2 ^ po))
 
@@ -35,7 +35,9 @@ def dot : List Int → List Int → Int
 
 /-- one step of `predict`: `w` = 32 for `i32` channels, 64 for the `i64` side path -/
 def predictStep (p : Profile) (w : Nat) (residual sum : Int) (shift : Nat) : Res Int :=
-  if w = 32 then decPredictStep32 p residual sum shift else decPredictStep64 p residual sum shift
+  match decDot p sum with
+  | .error e => .error e
+  | .ok acc => if w = 32 then decPredictStep32 p residual acc shift else decPredictStep64 p residual acc shift
 
 /-- `predict` (decode.rs:1736): `hist` is the already reconstructed prefix, most recent first. -/
 def predictGo (p : Profile) (w : Nat) (coefs : List Int) (shift : Nat) : List Int → List Int → Res (List Int)
